@@ -14,6 +14,9 @@ def run(ctx):
             ("e3", "edges,random", 8 if q else 120, 72, 1),
             ("fine", "edges,random", 6 if q else 80, 50, 2),
             ("e4", "edges,random", 6 if q else 80, 96, 3),
+            # eviction checks at heights below the eviction threshold, validators offline for a block or two
+            ("ev", "edges,random", 6 if q else 80, 60, 5),
+            ("ev3", "edges,random", 4 if q else 40, 75, 6),
             # real transactions to the Staker contract on a real chain (EVM + staker.sol + packer, genesis stakers)
             ("e2", "chain", 3 if q else 40, 80, 4)]
     sc.histories(ctx, "C16", plan)
